@@ -443,7 +443,7 @@ fn exercise(which: Which, name: &str, spec: &ProgSpec, rng: &mut Rng, random_pla
 }
 
 pub fn specs_for(which: Which, seed: u64, tier: &str) -> Vec<(String, ProgSpec, u64)> {
-    let (n_gen, n_model) = if tier == "thorough" { (8_000usize, 8_000usize) } else { (800, 800) };
+    let (n_gen, n_model) = if tier == "thorough" { (30_000usize, 30_000usize) } else { (800, 800) };
     let mut specs: Vec<(String, ProgSpec, u64)> = Vec::new();
     for (i, (name, spec)) in work::corpus_specs().into_iter().enumerate() {
         specs.push((format!("corpus:{}", name), spec, i as u64));
